@@ -46,6 +46,8 @@ CHARS = {
     'hash':     ('{U}#x', 'a#{P}#b'),
     'pct':      ('{U}%40x', 'a%40{P}%3A%20b'),
     'mixed':    ('{U}!/?#%21', 'a!:/?#{P}%40$&+=b'),
+    # a long token as password (a JWT, an API key): the '@' that ends the credential lies 300 characters into the URI
+    'long':     ('{U}', '{P}.eyJhbGciOiJIUzI1NiJ9.' + 'Ab3dEf9hJk2m' * 22 + '.{P}'),
 }
 
 _W = None   # per-process world (imports + stand-ins)
